@@ -12,6 +12,7 @@ import tempfile
 import time
 
 V = os.path.dirname(os.path.dirname(os.path.abspath(__file__)))
+REPO = os.environ.get("PYBADS_REPO", "/repo")
 
 
 def main():
@@ -19,13 +20,13 @@ def main():
     d = os.path.join(V, "seeded", sid)
     meta = json.load(open(os.path.join(d, "meta.json")))
     checks = sys.argv[2:] or [meta["property"]]
-    st = subprocess.run(["git", "-C", "/repo", "status", "--porcelain"], capture_output=True, text=True).stdout.strip()
+    st = subprocess.run(["git", "-C", REPO, "status", "--porcelain"], capture_output=True, text=True).stdout.strip()
     if st:
-        sys.exit("/repo is not clean: %s" % st)
+        sys.exit("%s is not clean: %s" % (REPO, st))
     tier = os.environ.get("SEED_TIER", "quick")
-    res_path = os.path.join(d, "results.json")
+    res_path = os.path.join(os.environ.get("SEED_RESULTS_DIR") or d, "results.json" if not os.environ.get("SEED_RESULTS_DIR") else "%s.json" % sid)
     results = json.load(open(res_path)) if os.path.exists(res_path) else {}
-    subprocess.run(["git", "-C", "/repo", "apply", os.path.join(d, "patch.diff")], check=True)
+    subprocess.run(["git", "-C", REPO, "apply", os.path.join(d, "patch.diff")], check=True)
     tmp = tempfile.mkdtemp(prefix="seed_", dir="/tmp")
     try:
         for c in checks:
@@ -34,10 +35,10 @@ def main():
             p = subprocess.run([os.path.join(V, "check"), c, "--tier", tier], capture_output=True, text=True, env=env, cwd=V)
             lines = [l for l in p.stdout.splitlines() if l.startswith(("VIOLATION", "  clause", "HARNESS-ERROR", "KNOWN-FINDING"))]
             results["%s/%s" % (c, tier)] = dict(exit=p.returncode, wall_s=round(time.time() - t, 1), lines=lines[:12], head=subprocess.run(
-                ["git", "-C", "/repo", "rev-parse", "--short", "HEAD"], capture_output=True, text=True).stdout.strip())
+                ["git", "-C", REPO, "rev-parse", "--short", "HEAD"], capture_output=True, text=True).stdout.strip())
             print(sid, c, tier, "exit", p.returncode, "|", (lines[1] if len(lines) > 1 else (lines[0] if lines else ""))[:160])
     finally:
-        subprocess.run(["git", "-C", "/repo", "checkout", "--", "."], check=True)
+        subprocess.run(["git", "-C", REPO, "checkout", "--", "."], check=True)
         shutil.rmtree(tmp, ignore_errors=True)
     json.dump(results, open(res_path, "w"), indent=1, sort_keys=True)
 
